@@ -136,7 +136,9 @@ pub fn request_bytes(req: &Value, t: &Table) -> Vec<u8> {
     for sg in arr(&req["path"]) { p.push('/'); p.push_str(&t.chars(sg)) }
     for _ in 0..i(&req["trailing"]) { p.push('/') }
     if p.is_empty() { p.push('/') }
-    format!("{} {} HTTP/1.1\r\nHost: x\r\n\r\n", s(&req["method"]), p).into_bytes()
+    // some requests carry a query (with `?` and `/` inside it, which belong to the query): the path is what stands before the FIRST `?`
+    let q = match (p.len() + arr(&req["path"]).len()) % 4 { 1 => "?q=what?&next=/a/b?c=1", 2 => "?x=1", _ => "" };
+    format!("{} {}{} HTTP/1.1\r\nHost: x\r\n\r\n", s(&req["method"]), p, q).into_bytes()
 }
 
 pub fn exec(router: &v::VRouter, raw: &[u8], head: bool) -> (util::ParsedResponse, Vec<(&'static str, i64)>) {
